@@ -29,9 +29,14 @@ def all_props():
 def run_one(job):
     name, patch, props, slot = job
     t0 = time.time()
-    scratch = os.path.join(SCRATCH_ROOT, "m-%s" % name)
+    # the scratch copy is private to this process; the cargo target directory of a slot is shared between processes
+    # (several `thorough` commands may run at the same time) and therefore taken under an advisory file lock
+    scratch = os.path.join(SCRATCH_ROOT, "m-%d-%s" % (os.getpid(), name))
     shutil.rmtree(scratch, ignore_errors=True)
     os.makedirs(scratch)
+    import fcntl
+    lock = open(os.path.join(SCRATCH_ROOT, "target-%d.lock" % slot), "w")
+    fcntl.flock(lock, fcntl.LOCK_EX)
     try:
         subprocess.run(["rsync", "-a", "--exclude", "target", "--exclude", ".git", fw.REPO + "/", scratch + "/"], check=True)
         r = subprocess.run(["patch", "-p1", "-s", "-d", scratch, "-i", patch], stdout=subprocess.PIPE, stderr=subprocess.STDOUT, text=True)
@@ -51,6 +56,8 @@ def run_one(job):
         return name, {"violations": out, "wall_s": round(time.time() - t0, 1)}
     finally:
         shutil.rmtree(scratch, ignore_errors=True)
+        fcntl.flock(lock, fcntl.LOCK_UN)
+        lock.close()
 
 
 def run_for_property(prop):
